@@ -73,7 +73,11 @@ func cutOffsets(r *eng.Run, s *Stream) (offs []int, exhaustive bool) {
 		add(f.End - 2)
 		add(f.End - 1)
 	}
-	for i := 0; i < 64; i++ {
+	samples := 64
+	if n > 1<<20 {
+		samples = 12 // every execution allocates the frame
+	}
+	for i := 0; i < samples; i++ {
 		add(r.T.Int(sim.LFaultAt, n))
 	}
 	return offs, false
@@ -92,7 +96,14 @@ func C16Read(r *eng.Run) {
 	s := GenStream(r, StreamCfg{Recv: cfg.Side, MaxMsgs: 3, TextValid: true, Budget: budget})
 	if budget > 400 && cfg.App == AppReadFrame && r.T.Bool(sim.LSize) {
 		// One frame beyond 64 KiB for certain.
-		big := &ref.Frame{Fin: true, Op: ref.OpBinary, Payload: drawPayload(r, 65537+r.T.Int(sim.LLen, 3000), false)}
+		n := 65537 + r.T.Int(sim.LLen, 3000)
+		if r.T.Chance(sim.LSize, 1, 3) {
+			// ... or beyond a megabyte or two (where an implementation may stop
+			// trusting the announced length and read piecemeal).
+			n = []int{1<<20 + 1, 1<<20 + 4096, 2<<20 + 1}[r.T.Int(sim.LSize, 3)] + r.T.Int(sim.LLen, 3000)
+			r.Probe("frame_beyond_a_megabyte_cut")
+		}
+		big := &ref.Frame{Fin: true, Op: ref.OpBinary, Payload: drawPayload(r, n, false)}
 		if cfg.Side == ref.Server {
 			big.Masked, big.Mask = true, drawMask(r)
 		}
